@@ -37,7 +37,7 @@ GaussDef(e) == "gauss" \notin DOMAIN e.obs.x => \A a \in 1..N : \A b \in 1..N : 
    (a # b /\ GaussMIDefined(x, y)) => Close(e.obs.gauss[a][b][L + 1], GaussMI6(x, y), 4000 + GaussMI6(x, y) \div 200)
 PureAgrees(e) == e.taumax = 0 => \A a \in 1..N : \A b \in 1..N : Close(e.obs.pure0[a][b], e.obs.all[a][b][1], Tol)
 \* (the climate classes store the ABSOLUTE similarity: sign is not compared)
-AbsRIs(r6, x, y) == LET r3 == RDiv(r6, 1000) IN r6 >= -5 /\ Abs(r3 * r3 - RSq6(x, y)) <= 2 * Abs(r3) * 2 + 2500
+AbsRIs(r6, x, y) == LET r3 == RDiv(r6, 1000) IN IsNum(r6) /\ Abs(r6) <= 2000000 /\ r6 >= -5 /\ Abs(r3 * r3 - RSq6(x, y)) <= 2 * Abs(r3) * 2 + 2500
 TsonisDef(e) == \A a \in 1..N : \A b \in 1..N : (Var(Col(e, a)) > 0 /\ Var(Col(e, b)) > 0) =>
    AbsRIs(e.obs.tsonis[a][b], Col(e, a), Col(e, b)) /\ Close(e.obs.tsonis[a][b], e.obs.tsonis[b][a], 5)
 SpearmanDef(e) == \A a \in 1..N : \A b \in 1..N : (Var(Col(e, a)) > 0 /\ Var(Col(e, b)) > 0) =>
